@@ -12,25 +12,25 @@ PASS_E = ("            index_offset = self.index_offsets[config_idx]\n"
 
 MUTANTS = [
     ("updates verdict overwrites the epochs verdict (the original defect)",
-     [(F, UPD, "                            should_iter = update % config.every_n_updates == 0\n")], "G8.decision-monotone"),
+     [(F, UPD, "                            should_iter = update % config.every_n_updates == 0\n")], "G4.decision-function"),
     ("samples verdict can reset the flag",
      [(F, "                            elif sample_at_last_update // config.every_n_samples < sample // config.every_n_samples:\n                                should_iter = True\n",
        "                            else:\n                                should_iter = sample_at_last_update // config.every_n_samples < sample // config.every_n_samples\n")],
-     "G8.decision-monotone"),
+     "G4.decision-function"),
     ("flag initialised once per update, not per config",
      [(F, "                    for config_idx, config in enumerate(self.configs):\n                        # check if interleaved dataset has to be iterated\n                        should_iter = False\n",
        "                    should_iter = False\n                    for config_idx, config in enumerate(self.configs):\n                        # check if interleaved dataset has to be iterated\n")],
-     "G8.decision-monotone"),
-    ("epochs interval tested against the update counter", [(F, "epoch % config.every_n_epochs == 0", "update % config.every_n_epochs == 0")], "G4.decision-units"),
-    ("updates interval tested against the sample counter", [(F, "update % config.every_n_updates == 0", "sample % config.every_n_updates == 0")], "G4.decision-units"),
-    ("updates branch consults the samples interval", [(F, "update % config.every_n_updates == 0", "update % config.every_n_samples == 0")], "G4.decision-units"),
-    ("epoch verdict without the epoch-end condition", [(F, EPO, "                            should_iter = epoch % config.every_n_epochs == 0\n")], "G4.decision-units"),
-    ("remainder compared with 1", [(F, "update % config.every_n_updates == 0", "update % config.every_n_updates == 1")], "G4.decision-units"),
-    ("modulo operands swapped", [(F, "update % config.every_n_updates == 0", "config.every_n_updates % update == 0")], "G4.decision-units"),
+     "G4.decision-function"),
+    ("epochs interval tested against the update counter", [(F, "epoch % config.every_n_epochs == 0", "update % config.every_n_epochs == 0")], "G4.decision-function"),
+    ("updates interval tested against the sample counter", [(F, "update % config.every_n_updates == 0", "sample % config.every_n_updates == 0")], "G4.decision-function"),
+    ("updates branch consults the samples interval", [(F, "update % config.every_n_updates == 0", "update % config.every_n_samples == 0")], "G4.decision-function"),
+    ("epoch verdict without the epoch-end condition", [(F, EPO, "                            should_iter = epoch % config.every_n_epochs == 0\n")], "G4.decision-function"),
+    ("remainder compared with 1", [(F, "update % config.every_n_updates == 0", "update % config.every_n_updates == 1")], "G4.decision-function"),
+    ("modulo operands swapped", [(F, "update % config.every_n_updates == 0", "config.every_n_updates % update == 0")], "G4.decision-function"),
     ("every_n_samples never consulted",
      [(F, "                        if config.every_n_samples is not None:\n                            if sample % config.every_n_samples == 0:\n                                should_iter = True\n                            elif sample_at_last_update // config.every_n_samples < sample // config.every_n_samples:\n                                should_iter = True\n", "")],
-     "G4.decision-units"),
-    ("crossing test with <=", [(F, "sample_at_last_update // config.every_n_samples < sample // config.every_n_samples", "sample_at_last_update // config.every_n_samples <= sample // config.every_n_samples")], "G4.decision-units"),
+     "G4.decision-function"),
+    ("crossing test with <=", [(F, "sample_at_last_update // config.every_n_samples < sample // config.every_n_samples", "sample_at_last_update // config.every_n_samples <= sample // config.every_n_samples")], "G4.decision-function"),
     ("bookkeeping refreshed before the config loop",
      [(F, "                    sample_at_last_update = sample\n                    # check if end is reached\n", "                    # check if end is reached\n"),
       (F, "                        epoch += 1\n\n                    for config_idx", "                        epoch += 1\n                    sample_at_last_update = sample\n\n                    for config_idx")],
